@@ -99,6 +99,13 @@ use {
 /// clause is still checked on the prefix that is yielded.
 pub const SKIP_KNOWN_F2: bool = true;
 
+/// F3, successor half (C13): the traversal `next` functions index `visited` /
+/// `dist` with successor ids that are not checked against `order()`; a
+/// non-contiguous AdjacencyMap (`empty(1); add_arc(0, 1000)`) reports such
+/// ids: undefined behaviour. While true, the C13 hostile-argument search runs
+/// traversals from VALID sources on contiguous vertex sets only.
+pub const SKIP_KNOWN_F3: bool = true;
+
 /// F6 (C11/C12): AdjacencyMap complement / converse / is_semicomplete /
 /// is_tournament treat vertex ids as positions when the vertex set is not
 /// 0..order (converse, is_semicomplete and is_tournament then index out of
